@@ -52,6 +52,7 @@ DRIVERS = {
     "hist_full": lambda rng, tier: gen.gen_hist(rng, T(tier, 48, 600), full_every=1),
     "seq": lambda rng, tier: gen.gen_seq(rng, calls_per=T(tier, 8, None)),
     "size": lambda rng, tier: gen.gen_size(rng, per_size=T(tier, 3, 24)),
+    "size_full": lambda rng, tier: gen.gen_size(rng, per_size=T(tier, 2, 12), obs="full"),
     "typed_q": lambda rng, tier: gen.gen_typed(rng, ALLPORTS, routes=("setter",), keys=["tcp"]) if tier == "quick"
     else gen.gen_typed(rng, ALLPORTS),
     "typed_b": lambda rng, tier: gen.gen_typed(rng, BPORTS, kts=("k256", "libsecp", "ed", "comb"), extra=T(tier, 30, 300)),
@@ -64,21 +65,21 @@ DRIVERS = {
 
 # property -> drivers, bounded models
 CHECKS = {
-    "C01": {"drivers": ["auth", "valid"], "models": []},
-    "C02": {"drivers": ["struct", "valid"], "models": []},
-    "C03": {"drivers": ["hist_full", "auth_light", "struct", "text", "prefix", "nodeid", "keys"], "models": []},
-    "C04": {"drivers": ["valid", "struct", "hist_full"], "models": []},
-    "C05": {"drivers": ["hist", "hist_long", "size"], "models": []},
-    "C06": {"drivers": ["hist", "size", "seq"], "models": []},
-    "C07": {"drivers": ["seq", "hist"], "models": []},
-    "C08": {"drivers": ["hist", "hist_long", "seq"], "models": []},
-    "C09": {"drivers": ["size", "hist", "struct"], "models": []},
-    "C10": {"drivers": ["nid", "valid", "hist", "cross"], "models": []},
-    "C11": {"drivers": ["cross", "struct", "auth_light", "valid"], "models": []},
-    "C12": {"drivers": ["text", "hist_full"], "models": []},
+    "C01": {"drivers": ["auth", "valid"], "models": ["gen_secp"]},
+    "C02": {"drivers": ["struct", "valid"], "models": ["gen_secp", "gen_ed"]},
+    "C03": {"drivers": ["hist_full", "auth_light", "struct", "text", "prefix", "typed_b", "nodeid", "keys"], "models": ["hist_k256", "gen_ed"]},
+    "C04": {"drivers": ["valid", "struct", "hist_full", "size_full"], "models": ["gen_secp"]},
+    "C05": {"drivers": ["hist", "hist_long", "size"], "models": ["hist_k256", "hist_ed"]},
+    "C06": {"drivers": ["hist", "size", "seq"], "models": ["hist_k256"]},
+    "C07": {"drivers": ["seq", "hist"], "models": ["hist_k256"]},
+    "C08": {"drivers": ["hist", "hist_long", "seq"], "models": ["hist_k256"]},
+    "C09": {"drivers": ["size", "hist", "struct"], "models": ["hist_k256"]},
+    "C10": {"drivers": ["nid", "valid", "hist", "cross"], "models": ["hist_ed"]},
+    "C11": {"drivers": ["cross", "struct", "auth_light", "valid"], "models": ["gen_secp", "gen_ed"]},
+    "C12": {"drivers": ["text", "hist_full", "size_full"], "models": []},
     "C13": {"drivers": ["prefix", "valid"], "models": []},
     "C14": {"drivers": ["typed_q", "typed_b", "hist_full"], "models": []},
-    "C15": {"drivers": ["eq", "hist"], "models": []},
+    "C15": {"drivers": ["eq", "hist"], "models": ["hist_k256"]},
     "C16": {"drivers": ["nodeid"], "models": []},
     "C17": {"drivers": ["keys"], "models": []},
 }
@@ -109,8 +110,26 @@ def script_of(script_file, sid):
     return None
 
 
+def pred_comb_ed_sig_with_valid_secp_entry(ev):
+    """the event's record is an ed25519-signed CombinedKey record that also carries a valid secp256k1 key"""
+    if not str(ev.get("kt", "")).endswith("comb"):
+        return False
+    f = ev.get("facts") or {}
+    try:
+        return bool(f["secp"]["present"] and f["secp"]["valid"] and f["ed"]["present"] and f["ed"]["sm"] and not f["secp"]["sm"])
+    except Exception:
+        return False
+
+
+PREDS = {"comb_ed_sig_with_valid_secp_entry": pred_comb_ed_sig_with_valid_secp_entry}
+
+
 def matches(kf, prop, chk, ev):
-    if kf.get("property") != prop:
+    if prop not in kf.get("properties", [kf.get("property")]):
+        return False
+    if "pred" in kf and not PREDS[kf["pred"]](ev):
+        return False
+    if "checks" in kf and not any(chk.startswith(c) for c in kf["checks"]):
         return False
     if "check" in kf and not chk.startswith(kf["check"]):
         return False
@@ -161,7 +180,7 @@ def run_check(pid, tier, seed, keep=False):
     model_stats = []
     from . import mc
     for mname in spec.get("models", []):
-        ms = mc.MODELS[mname](tier, wd)
+        ms = mc.MODELS[mname](tier, wd, seed)
         model_stats.append(ms["stats"])
         scripts.extend(ms.get("scripts", []))
         if not ms["stats"]["ok"]:
@@ -212,7 +231,7 @@ def run_check(pid, tier, seed, keep=False):
         lines.append("VIOLATION property=%s replay=%s  (%s; %d occurrence(s))" % (p, rp, c, len(lst)))
         nviol += len(lst)
     for kid, (kf, n) in sorted(known_hits.items()):
-        print("KNOWN-FINDING: property=%s %s (%d occurrence(s) this run)" % (kf["property"], kf.get("what", kid), n))
+        print("KNOWN-FINDING: property=%s %s (%d occurrence(s) this run)" % (pid, kf.get("what", kid), n))
     if others:
         log("checks of other properties that failed on these traces (reported by their own checks): %s"
             % ", ".join("%s/%s x%d" % (p, c, n) for (p, c), n in sorted(others.items())[:12]))
